@@ -422,8 +422,388 @@ for _fn, _do, _undo in (("add_cons_vars_to_problem", "add", "remove"), ("remove_
         Case("in_context", requires=_cv_ctx, ensures=_cv_post(_do, _undo, True)),
     ], pre=lambda E: _ctx_nonnull(Env({"obj": E["model"]}, E.s0, eng=E.eng)), key=_fn,
         modifies=lambda E: [("ghost", "trace", lambda st: ())],
-        note="`what` is ONE object that is not an optlang Variable (a constraint): the path on which remove_cons_vars_from_problem "
-             "records nothing but the inverse solver call. Lists, and the column bookkeeping for removed VARIABLES (restore_columns, "
-             "added by /repo 902ed3f), are outside this contract and are exercised by the bounded driver only"))
+        note="`what` is ONE abstract object (for add_cons_vars_to_problem a constraint or a variable - the function does not "
+             "distinguish; for remove_cons_vars_from_problem see the note set below): performs the solver call and, in a context, "
+             "registers exactly the inverse solver call in the innermost context. Lists / tuples / sets in `what` are outside the "
+             "contract (bounded driver only)"))
 
-ALL_HOOKS = chain_hooks(HOOKS, {"call_method": reset_on_ref}, {"call_method": solver_call_hook})
+
+# ================================================================ removed VARIABLES: column bookkeeping (restore_columns)
+# Ghost model of the optlang solver (ASSUMED - optlang is external; see the notes of the contracts below):
+#   A : Constraint -> Variable -> Real   the coefficient matrix (ghost "A"): A[c][v] is what c.get_linear_coefficients([v])[v] reads
+#                                        and what c.set_linear_coefficients({v: x}) writes; nothing else in the two functions under
+#                                        contract reads or writes it (solver.add / solver.remove / solver.update are recorded in the
+#                                        ghost trace only, their effect on A is an assumption of the glue lemma)
+#   cname : Constraint -> Id             the name of a constraint (does not change)
+#   var_problem : Variable -> Ref        the solver a variable belongs to (`variable.problem`)
+#   solver.constraints                   an optlang Container: a sequence of constraints that is also keyed by their names;
+#                                        `name in container` <=> some member has that name, `container[name]` is such a member
+from pyvc import builtins as _B  # noqa
+from pyvc.state import alloc_dict  # noqa
+
+CoefRow = z3.ArraySort(Ref, z3.RealSort())
+CoefMat = z3.ArraySort(Ref, CoefRow)
+cname = z3.Function("cname", Ref, Id)
+var_problem = z3.Function("var_problem", Ref, Ref)
+A_ENTRY = z3.Const("A_entry", CoefMat)
+REG.classes.setdefault("Variable", [])
+REG.classes.setdefault("Constraint", [])
+REG.classes.setdefault("Container", [])
+
+
+def coef(st):
+    return st.ghost.get("A", A_ENTRY)
+
+
+def _lp_model():
+    return TObj("Model", {"_contexts": TList("ref:HistoryManager"),
+                          "_solver": TObj("Solver", {"constraints": TList("ref:Constraint", cls="Container")})})
+
+
+def _solver_obj(st, model):
+    return st.objs[model.oid]["attr:_solver"]
+
+
+def _cons(st, model):
+    """(length, elements) of the constraints container of the model's solver"""
+    rec = st.objs[st.objs[_solver_obj(st, model).oid]["attr:constraints"].oid]
+    return rec["len"], rec["elem"]
+
+
+def _entry_solver(eng, st):
+    m = (getattr(eng, "entry_args", None) or {}).get("model")
+    if isinstance(m, VObj) and m.kind == "obj":
+        s = st.objs[m.oid].get("attr:_solver")
+        if isinstance(s, VObj) and isinstance(st.objs[s.oid].get("attr:constraints"), VObj):
+            return s
+    return None
+
+
+def lp_getattr_hook(eng, st, v, name):
+    if isinstance(v, VRef) and v.cls == "Variable" and name == "problem":
+        sol = _entry_solver(eng, st)
+        if sol is None:
+            return None
+        # `variable.problem`: the model's solver object itself, or something else (another solver, None)
+        return [("ok", s2, sol if yes else VRef(var_problem(v.t), "Solver"))
+                for yes, s2 in eng.branch(st, var_problem(v.t) == ident_of(sol.oid))]
+    if isinstance(v, VRef) and v.cls == "Constraint":
+        if name == "name":
+            return [("ok", st, VStr(cname(v.t)))]
+        if name in ("get_linear_coefficients", "set_linear_coefficients"):
+            return [("ok", st, VFunc("bound", v, name))]
+    return None
+
+
+def lp_call_hook(eng, st, recv, name, pos, kw):
+    """ASSUMED contracts of optlang (documented behaviour of optlang.interface.Constraint / Container / Model.update)"""
+    if isinstance(recv, VRef) and recv.cls == "Constraint" and len(pos) == 1 and not kw:
+        if name == "get_linear_coefficients":
+            # -> {v: A[self][v] for v in variables}; reads only
+            seq = _B.to_seq(eng, st, pos[0])
+            if seq is None or seq.known_len is None:
+                raise Unsupported("get_linear_coefficients of a symbolic collection of variables")
+            row = coef(st)[recv.t]
+            dom, val = z3.K(Ref, z3.BoolVal(False)), z3.K(Ref, z3.RealVal(0))
+            for k in range(seq.known_len):
+                u = unwrap(seq.get(st, z3.IntVal(k)), "ref")
+                dom, val = z3.Store(dom, u, z3.BoolVal(True)), z3.Store(val, u, row[u])
+            st2, d = alloc_dict(st, "ref:Variable", "real", dom=dom, val=val)
+            return [("ok", st2, d)]
+        if name == "set_linear_coefficients":
+            # for every variable of the dictionary the coefficient in THIS constraint becomes the given value; no other
+            # coefficient of the matrix changes
+            d = pos[0]
+            rec = st.objs[d.oid] if isinstance(d, VObj) and d.kind == "dict" else None
+            if rec is None or rec.get("lazy") or rec.get("pure") or not rec["kkind"].startswith("ref"):
+                raise Unsupported("set_linear_coefficients needs a {variable: number} dictionary")
+            a0 = coef(st)
+            row1, u = fresh("row", CoefRow), qv("su", Ref)
+            newv = z3.Select(rec["val"], u)
+            newv = z3.ToReal(newv) if rec["vkind"] == "int" else newv
+            ax = FA([u], row1[u] == z3.If(z3.Select(rec["dom"], u), newv, a0[recv.t][u]), patterns=[row1[u]])
+            return [("ok", st.assume(ax).setghost("A", z3.Store(a0, recv.t, row1)), NONE)]
+    if isinstance(recv, VObj) and recv.cls == "Container" and name in ("__contains__", "__getitem__") and len(pos) == 1:
+        rec = st.objs[recv.oid]
+        n, e = rec["len"], rec["elem"]
+        if isinstance(pos[0], VInt) and name == "__getitem__":
+            return [("ok", s2, VRef(e[norm(pos[0].t, n)], "Constraint")) if ok else eng.raise_(s2, "IndexError")
+                    for ok, s2 in eng.branch(st, z3.And(-n <= pos[0].t, pos[0].t < n))]
+        if not isinstance(pos[0], (VStr, VConc)):
+            return None
+        k = unwrap(pos[0], "id")
+        b, w, j = fresh("has_name", z3.BoolSort()), fresh("at_name", I), qv("hj")
+        st2 = st.assume(FA([j], z3.Implies(z3.And(0 <= j, j < n, cname(e[j]) == k), b), patterns=[cname(e[j])]),
+                        z3.Implies(b, z3.And(0 <= w, w < n, cname(e[w]) == k)))
+        if name == "__contains__":
+            return [("ok", st2, VBool(b))]
+        return [("ok", s3, VRef(e[w], "Constraint")) if yes else eng.raise_(s3, "KeyError") for yes, s3 in eng.branch(st2, b)]
+    if isinstance(recv, VObj) and recv.cls == "Solver" and name == "update" and not pos and not kw \
+            and isinstance(st.objs[recv.oid].get("attr:constraints"), VObj):
+        # Model.update(): flushes pending additions / removals; recorded in the ghost trace, no coefficient is written
+        tr = st.ghost.get("trace", ())
+        return [("ok", st.setghost("trace", tr + (("update", (), ()),)), NONE)]
+    return None
+
+
+def dict_truth_hook(eng, st, v):
+    """`if d:` for a dictionary kept as (dom, val) arrays without a cardinality: true iff it has a key"""
+    if isinstance(v, VObj) and v.kind == "dict":
+        rec = st.objs[v.oid]
+        if rec.get("lazy"):
+            return False
+        if rec.get("pure") or "card" in rec:
+            return None
+        k = qv("tk", rec["dom"].sort().domain())
+        return z3.Exists([k], z3.Select(rec["dom"], k))
+    return None
+
+
+HOOKS_LP = {"getattr": lp_getattr_hook, "call_method": lp_call_hook, "truth": dict_truth_hook}
+
+
+# ---------------------------------------------------------------- spec functions shared by (b), (c) and the glue lemma (d)
+def names_unique(n, e):
+    """optlang Container: the members have pairwise different names"""
+    j1, j2 = qv("u1"), qv("u2")
+    return FA([j1, j2], z3.Implies(z3.And(0 <= j1, j1 < n, 0 <= j2, j2 < n, cname(e[j1]) == cname(e[j2])), j1 == j2),
+              patterns=[z3.MultiPattern(cname(e[j1]), cname(e[j2]))])
+
+
+def column_recorded(dom, val, a, n, e, v, upto):
+    """(dom, val) is exactly { name of c -> a[c][v] | c one of the first `upto` constraints of (n, e), a[c][v] != 0 }"""
+    j, nm, w = qv("cj"), qv("cn", Id), qv("cw")
+    return z3.And(
+        FA([j], z3.Implies(z3.And(0 <= j, j < upto, a[e[j]][v] != 0),
+                           z3.And(z3.Select(dom, cname(e[j])), z3.Select(val, cname(e[j])) == a[e[j]][v])), patterns=[e[j]]),
+        FA([nm], z3.Implies(z3.Select(dom, nm),
+                            z3.Exists([w], z3.And(0 <= w, w < upto, cname(e[w]) == nm, a[e[w]][v] != 0), patterns=[e[w]])),
+           patterns=[z3.Select(dom, nm)]))
+
+
+def _written(entries, n, e, c, u, done=None):
+    """(c, u) is a cell restore_columns writes: u a recorded variable, c a CURRENT constraint whose name is recorded for u"""
+    w = qv("rw")
+    alts = []
+    for v, dom, val in entries:
+        rec_ = z3.Select(dom, cname(c)) if done is None else done(cname(c))
+        alts.append(z3.And(u == v, rec_, z3.Exists([w], z3.And(0 <= w, w < n, e[w] == c), patterns=[e[w]])))
+    return z3.Or(*alts) if alts else z3.BoolVal(False)
+
+
+def restore_spec(entries, a0, a1, n, e):
+    """entries = [(variable, dom, val)]: for every recorded variable and every recorded (name -> x) such that a constraint of that
+    name exists in the CURRENT container (n, e), the coefficient of the variable in that constraint is x afterwards (a1);
+    no other cell of the matrix differs from before (a0)"""
+    j, c, u = qv("rj"), qv("rc", Ref), qv("ru", Ref)
+    cs = [FA([j], z3.Implies(z3.And(0 <= j, j < n, z3.Select(dom, cname(e[j]))), a1[e[j]][v] == z3.Select(val, cname(e[j]))),
+             patterns=[e[j]]) for v, dom, val in entries]
+    cs.append(FA([c, u], z3.Implies(a1[c][u] != a0[c][u], _written(entries, n, e, c, u)), patterns=[a1[c][u]]))
+    return z3.And(*cs)
+
+
+def _col_arrays(st, col):
+    rec = st.objs[col.oid]
+    if rec.get("lazy"):
+        return z3.K(Id, z3.BoolVal(False)), z3.K(Id, z3.RealVal(0))
+    return rec["dom"], rec["val"]
+
+
+# ---------------------------------------------------------------- (a), (b): remove_cons_vars_from_problem, `what` ONE Variable
+def _own(E):
+    return var_problem(E["what"].t) == ident_of(_solver_obj(E.s0, E["model"]).oid)
+
+
+def _rm_inv(E, Lc):
+    """loop over solver.constraints: the column recorded so far is the one of the constraints visited so far"""
+    n, e = _cons(E.s0, E["model"])
+    dom, val = _col_arrays(Lc.st, Lc.var("column"))
+    return z3.And(column_recorded(dom, val, coef(E.s0), n, e, E["what"].t, Lc.i), z3.BoolVal(coef(Lc.st).eq(coef(E.s0))))
+
+
+def _is_solver_call(ev, name, what):
+    return ev[0] == name and len(ev[1]) == 1 and ev[1][0] is what and ev[2] == ()
+
+
+def _is_push_inverse(ev, E, name):
+    """ev pushes partial(<the model's solver>.<name>, what)"""
+    f = ev[2] if ev[0] == "push" else None
+    return (isinstance(f, VFunc) and f.kind == "partial" and isinstance(f.a, VFunc) and f.a.kind == "bound" and f.a.b == name
+            and isinstance(f.a.a, VObj) and f.a.a.oid == _solver_obj(E.s0, E["model"]).oid and len(f.b) == 1
+            and f.b[0] is E["what"] and not f.c)
+
+
+def _rm_var_post(E):
+    tr, what, model = _trace(E), E["what"], E["model"]
+    nc, ec = _ctxs(E.s0, model)
+    n, e = _cons(E.s0, model)
+    a0, v = coef(E.s0), what.t
+    same_a = z3.BoolVal(coef(E.s1).eq(a0))
+    j = qv("pj")
+    if len(tr) == 2:
+        # nothing to restore: the variable occurs in no constraint; [remove(what), push partial(solver.add, what)]
+        ok = _is_solver_call(tr[0], "remove", what) and _is_push_inverse(tr[1], E, "add")
+        if not ok:
+            return z3.BoolVal(False)
+        return z3.And(tr[1][1].t == ec[nc - 1], FA([j], z3.Implies(z3.And(0 <= j, j < n), a0[e[j]][v] == 0), patterns=[e[j]]), same_a)
+    if len(tr) == 3:
+        # [push restore_columns, remove(what), push partial(solver.add, what)]: restore_columns is recorded first = runs last
+        f = tr[0][2] if tr[0][0] == "push" else None
+        ok = (isinstance(f, VFunc) and f.kind == "closure" and getattr(f.a, "name", None) == "restore_columns"
+              and _is_solver_call(tr[1], "remove", what) and _is_push_inverse(tr[2], E, "add"))
+        if not ok:
+            return z3.BoolVal(False)
+        # what the registered closure will see: its free variables `model` and `columns`
+        mdl, cols = E.s1.lookup(f.b, "model"), E.s1.lookup(f.b, "columns")
+        items = E.s1.objs[cols.oid].get("items") if isinstance(cols, VObj) else None
+        ok = (isinstance(mdl, VObj) and mdl.oid == model.oid and items is not None and len(items) == 1
+              and isinstance(items[0], VTuple) and len(items[0].items) == 2 and isinstance(items[0].items[0], VRef)
+              and isinstance(items[0].items[1], VObj) and items[0].items[1].kind == "dict")
+        if not ok:
+            return z3.BoolVal(False)
+        var, col = items[0].items
+        dom, val = _col_arrays(E.s1, col)
+        w = qv("pw")
+        return z3.And(tr[0][1].t == ec[nc - 1], tr[2][1].t == ec[nc - 1], var.t == v,
+                      column_recorded(dom, val, a0, n, e, v, n),
+                      z3.Exists([w], z3.And(0 <= w, w < n, a0[e[w]][v] != 0), patterns=[e[w]]), same_a)
+    return z3.BoolVal(False)
+
+
+def _rm_plain_post(with_ctx):
+    base = _cv_post("remove", "add", with_ctx)
+    return lambda E: z3.And(base(E), z3.BoolVal(coef(E.s1).eq(coef(E.s0))))
+
+
+def _is_var(a, st):
+    return isinstance(a.get("what"), VRef) and a["what"].cls == "Variable"
+
+
+_rm = REG.get("remove_cons_vars_from_problem")
+_rm.params = [("model", _lp_model()), ("what", TRef("Undo"))]
+for _c in _rm.cases:
+    _c.applies = lambda a, st: not _is_var(a, st)
+_VAR = dict(what=TRef("Variable"))
+for _c in (Case("variable:no_context", requires=lambda E: z3.Not(_cv_ctx(E)), ensures=_rm_plain_post(False)),
+           Case("variable:in_context:of_another_solver", requires=lambda E: z3.And(_cv_ctx(E), z3.Not(_own(E))),
+                ensures=_rm_plain_post(True)),
+           Case("variable:in_context:of_this_solver", requires=lambda E: z3.And(_cv_ctx(E), _own(E)), ensures=_rm_var_post)):
+    _c.applies = _is_var
+    _rm.cases.append(pcase_(_c, **_VAR))
+_rm.pre = lambda E: z3.And(_ctx_nonnull(Env({"obj": E["model"]}, E.s0, eng=E.eng)), names_unique(*_cons(E.s0, E["model"])))
+_rm.loops = {1: LoopSpec(_rm_inv, lambda E, Lc: [("dict", Lc.var("column"), "id", "real")])}
+_rm.note = (
+    "`what` is ONE object: (i) not an optlang Variable (a constraint), or a Variable of another solver: the solver call remove(what) "
+    "and, in a context, exactly partial(solver.add, what) registered in the innermost context; (ii) a Variable of the model's solver, "
+    "in a context: additionally, BEFORE the removal, the closure restore_columns is registered iff the variable has a non-zero "
+    "coefficient in some constraint, and the `columns` it captures is [(what, {name of c -> A[c][what] | c in solver.constraints at "
+    "entry, A[c][what] != 0})] (loop invariant over solver.constraints). ASSUMED (optlang, external): the ghost matrix A is what "
+    "Constraint.get_linear_coefficients reads; constraint names are pairwise different within a solver (precondition); "
+    "`variable.problem is solver` decides membership. Lists / tuples / sets of several objects in `what` are OUTSIDE the contract "
+    "(the engine keeps lists of (object, dict) tuples only with a concrete length): bounded driver only")
+
+
+# ---------------------------------------------------------------- (c): the nested undo function restore_columns
+def _columns_t(k):
+    """closure variable `columns`: a list of k (Variable, {name -> coefficient}) tuples"""
+    def mk(st, name):
+        items = []
+        for i in range(k):
+            st, var = TRef("Variable").make(st, f"{name}_var{i}")
+            st, col = alloc_dict(st, "id", "real", base=f"{name}_col{i}")
+            items.append(VTuple((var, col)))
+        st, o = alloc_obj(st, "pylist", {"items": tuple(items)})
+        return st, VObj(o.oid, "pylist", "list")
+    return TCustom(mk)
+
+
+def _entries(E, st=None):
+    st = st or E.s0
+    out = []
+    for t in st.objs[E["columns"].oid]["items"]:
+        var, col = t.items
+        out.append((var.t, st.objs[col.oid]["dom"], st.objs[col.oid]["val"]))
+    return out
+
+
+def _rc_inv(E, Lc):
+    """inner loop over column.items() (ghost enumeration order/pos of the dictionary): the names enumerated so far that exist in
+    the current solver are written for this variable, nothing else has changed since the loop was entered"""
+    st, i = Lc.st, Lc.i
+    v, col = Lc.var("variable").t, Lc.var("column")
+    rec = st.objs[col.oid]
+    dom, val = rec["dom"], rec["val"]
+    order, pos, card = st.ghost[("order", col.oid, dom.get_id())]
+    n, e = _cons(E.s0, E["model"])
+    a_in, a_cur = coef(Lc.entry), coef(st)
+    j, c, u = qv("ij"), qv("ic", Ref), qv("iu", Ref)
+    done = lambda nm: z3.And(z3.Select(dom, nm), pos[nm] < i)  # noqa
+    return z3.And(
+        FA([j], z3.Implies(z3.And(0 <= j, j < n, done(cname(e[j]))), a_cur[e[j]][v] == z3.Select(val, cname(e[j]))), patterns=[e[j]]),
+        FA([c, u], z3.Implies(a_cur[c][u] != a_in[c][u], _written([(v, dom, val)], n, e, c, u, done)), patterns=[a_cur[c][u]]))
+
+
+def _rc_post(E):
+    n, e = _cons(E.s0, E["model"])
+    same_cols = all(E.s1.objs[t.items[1].oid] is E.s0.objs[t.items[1].oid] for t in E.s0.objs[E["columns"].oid]["items"]) \
+        and E.s1.objs[E["columns"].oid] is E.s0.objs[E["columns"].oid]
+    tr = _trace(E)
+    return z3.And(restore_spec(_entries(E), coef(E.s0), coef(E.s1), n, e),
+                  z3.BoolVal(bool(same_cols)),                                   # the recorded columns are only read
+                  z3.BoolVal(len(tr) == 1 and tr[0] == ("update", (), ())))      # the only solver call: current.update()
+
+
+def _rc_distinct(E):
+    vs = [v for v, _, _ in _entries(E)]
+    return z3.Distinct(*vs) if len(vs) > 1 else z3.BoolVal(True)
+
+
+REG.add(Contract(MSOLV, "remove_cons_vars_from_problem.restore_columns", "C03", [], [
+    pcase_(Case("no_column", ensures=_rc_post), columns=_columns_t(0)),
+    pcase_(Case("one_column", ensures=_rc_post), columns=_columns_t(1)),
+    pcase_(Case("two_columns", requires=_rc_distinct, ensures=_rc_post), columns=_columns_t(2)),
+], closure=[("model", _lp_model()), ("columns", _columns_t(1))],
+    pre=lambda E: names_unique(*_cons(E.s0, E["model"])),
+    modifies=lambda E: [("ghost", "trace", lambda st: ()), ("ghost", "A", lambda st: fresh("A", CoefMat))],
+    loops={1: LoopSpec(_rc_inv, lambda E, Lc: [("ghost", "A", lambda st: fresh("A", CoefMat))])},
+    key="remove_cons_vars_from_problem.restore_columns",
+    note="nested undo function, verified with its free variables `model` and `columns` as closure parameters; `columns` holds 0, 1 "
+         "or 2 (variable, {name -> coefficient}) tuples with different variables (the engine keeps such lists only with a concrete "
+         "length; remove_cons_vars_from_problem under its contract registers it with exactly 1). Proved: for every recorded variable "
+         "and every recorded name for which the CURRENT solver (model.solver at the time of the call) has a constraint, the "
+         "coefficient of the variable in that constraint is set to the recorded value; no other cell of the coefficient matrix "
+         "changes; the recorded columns and the constraint container are only read; the only other solver call is update(). "
+         "ASSUMED (optlang, external): Constraint.set_linear_coefficients({v: x}) writes exactly A[self][v] := x; the Container is "
+         "keyed by pairwise different constraint names (precondition); Model.update() writes no coefficient"))
+
+
+# ---------------------------------------------------------------- (d): glue lemma over (b), (c) and the assumed optlang contracts
+def lemmas():
+    """Leaving the context runs the history of (b) last-in-first-out: partial(solver.add, v) first, then restore_columns.
+    ASSUMED about optlang: a variable that has just been added (again) has coefficient 0 in every constraint (`Adding a variable
+    again does not bring back its column`); constraints keep their names.  Then, whatever happened in between, every constraint
+    that existed at the removal and still exists has its entry-time coefficient for v again, and restore_columns touches no other
+    variable's coefficients."""
+    from pyvc.engine import Obl
+    v = z3.Const("g_v", Ref)
+    n0, e0 = z3.Int("g_n0"), z3.Const("g_e0", SeqRef)           # solver.constraints when the variable is removed
+    n1, e1 = z3.Int("g_n1"), z3.Const("g_e1", SeqRef)           # ... when the undo functions run
+    a0, a2, a3 = (z3.Const(f"g_A{k}", CoefMat) for k in (0, 2, 3))   # at the removal / after the undo solver.add(v) / after restore
+    dom, val = z3.Const("g_dom", z3.ArraySort(Id, z3.BoolSort())), z3.Const("g_val", z3.ArraySort(Id, z3.RealSort()))
+    c, u, i, j = z3.Const("g_c", Ref), z3.Const("g_u", Ref), z3.Int("g_i"), z3.Int("g_j")
+    added = z3.ForAll([c], a2[c][v] == 0, patterns=[a2[c][v]])
+    common = [n0 >= 0, n1 >= 0, names_unique(n0, e0), names_unique(n1, e1), added]
+    still = z3.And(0 <= i, i < n0, 0 <= j, j < n1, e1[j] == e0[i])
+    goal = z3.And(z3.ForAll([i, j], z3.Implies(still, a3[e0[i]][v] == a0[e0[i]][v]), patterns=[z3.MultiPattern(e0[i], e1[j])]),
+                  z3.ForAll([c, u], z3.Implies(u != v, a3[c][u] == a2[c][u]), patterns=[a3[c][u]]))
+    some, none_ = z3.Int("g_w"), z3.Int("g_k")
+    return [
+        Obl("C03/lemma/remove-variable/undo-restores-column", common + [
+            column_recorded(dom, val, a0, n0, e0, v, n0),                       # (b): what restore_columns captured
+            restore_spec([(v, dom, val)], a2, a3, n1, e1)], goal, "lemma"),     # (c): what restore_columns does
+        Obl("C03/lemma/remove-variable/empty-column-needs-no-restore", common + [
+            z3.ForAll([none_], z3.Implies(z3.And(0 <= none_, none_ < n0), a0[e0[none_]][v] == 0), patterns=[e0[none_]]),   # (b), 2-event trace
+            a3 == a2], goal, "lemma")]
+
+
+ALL_HOOKS = chain_hooks(HOOKS, {"call_method": reset_on_ref}, {"call_method": solver_call_hook}, HOOKS_LP)
